@@ -161,6 +161,43 @@ def contraction_cases(L, seed, n):
                 viol.append((f"{site}.contract() kept the wrong eigenvector of a nearly pure state (purity deficit {deficit:.2e}, eigenvalues {np.round(ev, 8).tolist()}): the physical state changed by {phys:.2e}", payload))
         elif phys > 3 * TOL:
             viol.append((f"{site}.contract() changed the physical state by {phys:.2e} (purity deficit {deficit:.2e})", payload))
+    # vector level: a vector is contracted to a label only if it *is* a basis vector; a nearly-basis
+    # vector (second amplitude 1e-9 ... 1e-2, real or complex) must keep its amplitudes
+    from photon_weave.state.fock import Fock
+    from photon_weave.state.polarization import Polarization
+    from photon_weave.state.custom_state import CustomState
+    import jax.numpy as jnp
+    for site in ("Fock", "Polarization", "CustomState"):
+        for eps in (0.0, 1e-9, 1e-7, 1e-5, 1e-4, 1e-3, 1e-2):
+            for ph in (1.0, 1j, -1.0):
+                d = 2 if site == "Polarization" else 3
+                lead = rng.randrange(d)
+                v = np.zeros(d, complex)
+                v[lead] = math.sqrt(1 - eps * eps)
+                v[(lead + 1) % d] = eps * ph
+                if site == "Fock":
+                    s_ = Fock(); s_.dimensions = d
+                elif site == "Polarization":
+                    s_ = Polarization()
+                else:
+                    s_ = CustomState(d)
+                s_.state = jnp.array(v.reshape(-1, 1)); s_.expansion_level = EL.Vector
+                cases += 1
+                key = f"{site}/vector/eps={eps:g}"
+                hist[key] = hist.get(key, 0) + 1
+                payload = {"site": site, "level": "vector", "vector_re": np.real(v).tolist(), "vector_im": np.imag(v).tolist()}
+                try:
+                    s_.contract()
+                except Exception as ex:
+                    viol.append((f"{site}.contract() raised {type(ex).__name__}: {str(ex)[:120]} on a nearly-basis vector (second amplitude {eps:g})", payload))
+                    continue
+                w_ = as_vector(s_.expansion_level, s_.state, d)
+                if w_ is None:
+                    viol.append((f"{site}.contract() turned a vector into a matrix", payload))
+                    continue
+                phys = float(np.abs(np.outer(w_, w_.conj()) - np.outer(v, v.conj())).max())
+                if phys > 1e-7:
+                    viol.append((f"{site}.contract() at vector level changed the physical state by {phys:.2e}: amplitudes {np.round(v, 9).tolist()} became {'the label ' + str(s_.state) if s_.expansion_level == EL.Label else np.round(w_, 9).tolist()}", payload))
     return {"cases": cases, "violations": viol, "tie": tie, "histogram": hist}
 
 
